@@ -21,6 +21,7 @@ def _success(rec) -> bool:
 
 
 class C01World(E2EWorld):
+    prop = P
     name = "E2E-C01"
     link_default = "chaos"
 
